@@ -898,3 +898,84 @@ func TestC18SharedOption(t *testing.T) {
 }
 
 func init() { vh.RegisterReplay("C18.sharedoption", vh.Replayer(runC18Shared)) }
+
+// ---------------------------------------------------------------- connect-to behind the h2c transport
+
+// H2C(true) replaces the client's transport by one that dials through the dial function in force
+// when the option is applied - so, given after ConnectTo (and DNSCaching), mapped addresses are
+// still replaced in rotation and unmapped ones pass through.
+type c18H2C struct {
+	Replacements int
+	Hits         int
+	Mapped       bool // the target address is a mapped one
+}
+
+func runC18H2C(c c18H2C) error {
+	var dsts []string
+	for i := 0; i < c.Replacements; i++ {
+		dsts = append(dsts, fmt.Sprintf("192.168.9.%d:%d", i+1, 7000+i))
+	}
+	rec := &c18Recorder{}
+	atk := vegeta.NewAttacker(vegeta.Client(&http.Client{Transport: &http.Transport{DialContext: rec.DialContext}}),
+		vegeta.ConnectTo(map[string][]string{"10.1.1.1:80": dsts}), vegeta.H2C(true), vegeta.Workers(1), vegeta.MaxWorkers(1))
+	target := "http://10.2.2.2:8080/"
+	if c.Mapped {
+		target = "http://10.1.1.1:80/"
+	}
+	n := 0
+	for range atk.Attack(vegeta.NewStaticTargeter(vegeta.Target{Method: "GET", URL: target}), stopAfterPacer{uint64(c.Hits)}, 0, "c18h2c") {
+		n++
+	}
+	rec.mu.Lock()
+	defer rec.mu.Unlock()
+	var seq []string
+	for _, d := range rec.dials {
+		seq = append(seq, d.Addr)
+	}
+	what := fmt.Sprintf("ConnectTo(10.1.1.1:80 -> %v) then H2C(true), %d hits by one worker on %s", dsts, c.Hits, target)
+	if len(seq) != c.Hits {
+		return fmt.Errorf("%s: %d dials reached the transport's dial function for %d hits (every dial fails, so every hit dials): %v", what, len(seq), c.Hits, seq)
+	}
+	for k, a := range seq {
+		if !c.Mapped {
+			if a != "10.2.2.2:8080" {
+				return fmt.Errorf("%s: dial %d went to %q, want the unmapped address itself", what, k, a)
+			}
+			continue
+		}
+		idx := -1
+		for j, d := range dsts {
+			if d == a {
+				idx = j
+			}
+		}
+		if idx < 0 {
+			return fmt.Errorf("%s: dial %d went to %q, which is not a replacement of the mapped address", what, k, a)
+		}
+		if k > 0 {
+			prev := -1
+			for j, d := range dsts {
+				if d == seq[k-1] {
+					prev = j
+				}
+			}
+			if idx != (prev+1)%len(dsts) {
+				return fmt.Errorf("%s: the dials went to %v - not a rotation over the replacements", what, seq)
+			}
+		}
+	}
+	return nil
+}
+
+func TestC18H2C(t *testing.T) {
+	vh.Check(t, 20, 500, func(t *rapid.T) {
+		c := c18H2C{Replacements: rapid.IntRange(1, 4).Draw(t, "k"), Hits: rapid.IntRange(1, 12).Draw(t, "hits"), Mapped: rapid.IntRange(0, 3).Draw(t, "mapped") != 0}
+		vh.Case("C18.h2c", fmt.Sprintf("%+v", c), c.Mapped && c.Replacements >= 2, fmt.Sprintf("mapped:%v", c.Mapped))
+		vh.Sample("C18.h2c", c.Mapped, c)
+		if err := runC18H2C(c); err != nil {
+			vh.Fail(t, "C18", "C18.h2c", c, err)
+		}
+	})
+}
+
+func init() { vh.RegisterReplay("C18.h2c", vh.Replayer(runC18H2C)) }
